@@ -176,6 +176,9 @@ func ValueFromBytes(id RegisterID, b []byte) (Register, error) {
 		if err := binary.Read(buf, binary.LittleEndian, &ui64); err != nil {
 			return nil, err
 		}
+		if buf.Len() != 0 {
+			return nil, fmt.Errorf("incorrect input bytes length, 8 is expected, but got %d", len(b))
+		}
 		return parser64(ui64), nil
 	}
 
@@ -185,6 +188,9 @@ func ValueFromBytes(id RegisterID, b []byte) (Register, error) {
 		if err := binary.Read(buf, binary.LittleEndian, &ui32); err != nil {
 			return nil, err
 		}
+		if buf.Len() != 0 {
+			return nil, fmt.Errorf("incorrect input bytes length, 4 is expected, but got %d", len(b))
+		}
 		return parser32(ui32), nil
 	}
 
@@ -193,6 +199,9 @@ func ValueFromBytes(id RegisterID, b []byte) (Register, error) {
 		var ui8 uint8
 		if err := binary.Read(buf, binary.LittleEndian, &ui8); err != nil {
 			return nil, err
+		}
+		if buf.Len() != 0 {
+			return nil, fmt.Errorf("incorrect input bytes length, 1 is expected, but got %d", len(b))
 		}
 		return parser8(ui8), nil
 	}
